@@ -62,10 +62,22 @@ def c01(rep, tier):
             return data_loc(t[2])
         return None
     A = rep.rule('C01.a', 'every opcode handler meets its ISA contract (locations written and read, frame roles, polarity, ip, result)', floor=12)
+    # an enumerator that no expression of the library ever mentions (outside case labels) cannot occur in a program: a reserved opcode
+    mentioned = set()
+    for fx_ in (vm.facts, Facts(['Compiler/src/gen.cpp'])):
+        for f_ in fx_.functions:
+            if f_.get('body') is None or f_['tmpl'] == 'pattern':
+                continue
+            for x_ in walk_all_exprs(f_['body']):
+                if x_.get('k') == 'ref' and x_.get('dk') == 'enumerator' and (x_.get('q') or '').startswith('Theo::OpCode::'):
+                    mentioned.add(x_['name'])
     for op in vm.opcodes:
         spec = isa['handlers'].get(op)
         ps = groups.get(op, [])
         inst = 'executeSingle/%s' % op
+        if spec is None and op not in mentioned:
+            A.ok(inst, 'reserved opcode: not part of the ISA (spec/isa.json) and no expression of the compiler or the VM creates it', WV)
+            continue
         if spec is None:
             A.unknown(inst, 'no contract for this opcode in spec/isa.json')
             continue
@@ -268,6 +280,9 @@ def c01(rep, tier):
     for op in vm.opcodes:
         ps = groups.get(op, [])
         inst = 'executeSingle/%s: progress' % op
+        if op not in mentioned and op not in isa['handlers']:
+            B.ok(inst, 'reserved opcode: not part of the ISA (spec/isa.json) and no expression of the compiler or the VM creates it', WV)
+            continue
         if not ps:
             B.violation(inst, 'no handler', WV)
             continue
@@ -710,6 +725,31 @@ def c01(rep, tier):
         F.check(bool(_re.search(r'[^A-Za-z0-9_]', nm_)) or nm_ == '' or nm_[0].isdigit(), 'fetchTemporary: name "%s"' % nm_, 'contains a character no identifier can contain',
                 'temporaries are registered under the name "%s", which a user variable can have: fetchVariableRegister("%s") then returns a temporary - the variable shares a register with '
                 'intermediate results and disappears from the variable view' % (nm_, nm_), W(m, ft), witness={'input': '%s := 5; x1 := %s + 1' % (nm_, nm_)})
+    # ... and a variable's register is found under its whole name: the lookup neither shortens nor rewrites the name it is given (the
+    # names of macro temporaries differ at their end - the pass number - and may be long)
+    fv = m.fn('FunctionGenState::fetchVariableRegister')
+    rep.analysed(fv)
+    if fv.get('params'):
+        pn = fv['params'][0]
+        bad = None
+        for e in walk_all_exprs(fv['body']):
+            if e.get('k') == 'call' and e.get('obj') is not None and strip_casts(e['obj']).get('d') == pn['d']:
+                short = (e.get('callee') or '').split('::')[-1]
+                if short in ('resize', 'erase', 'pop_back', 'assign', 'operator=', 'replace', 'clear', 'append', 'push_back', 'insert', 'operator+=', 'substr',
+                             'starts_with', 'ends_with', 'find', 'rfind') or (short == 'compare' and len(e.get('args', [])) > 1):
+                    bad = bad or (e, short)
+            if e.get('k') == 'assign':
+                l = strip_casts(e['l'])
+                if l.get('d') == pn['d'] or (is_call(l, '::operator[]') and strip_casts(l['obj']).get('d') == pn['d']):
+                    bad = bad or (e, 'assignment')
+            if e.get('k') == 'call' and e.get('obj') is None and (e.get('callee') or '').split('::')[-1] in ('strncmp', 'memcmp', 'strncasecmp', 'strcasecmp') and \
+                    any(y.get('k') == 'ref' and y.get('d') == pn['d'] for a in e.get('args', []) for y in walk_expr(a)):
+                bad = bad or (e, (e.get('callee') or '').split('::')[-1])
+        F.check(bad is None, 'fetchVariableRegister: whole name', 'the name parameter is compared and stored as given',
+                'the name is %s before the lookup (%s): two different names that agree on what is kept share one register - e.g. the temporaries of two expansion '
+                'steps of a macro defined in a file with a long name, which differ in the pass number at their end' % (
+                    'shortened or rewritten' if bad and bad[1] not in ('strncmp', 'memcmp', 'strncasecmp', 'strcasecmp', 'compare', 'starts_with', 'ends_with', 'find', 'rfind') else 'compared in part only',
+                    show(bad[0])[:60] if bad else ''), W(m, fv, bad[0] if bad else None))
     # vector of temporaries in the call sequence
     g = m.cfg(dvf)
     rels = [ev for ev in g.calls_to('FunctionGenState::releaseTemporary') if is_call(strip_casts(ev.e['args'][0]), '::operator[]')]
